@@ -71,7 +71,7 @@ template <int N> static void t_split()
   }
   vp_reach("end");
 }
-#define LENS(M) M(0) M(1) M(2) M(3) M(4) M(5) M(6)
+#define LENS(M) M(0) M(1) M(2) M(3) M(4) M(5) M(6) M(7)
 #define TOK_E(N) VP_ENTRY vp_main_tokenize_##N() { t_tokenize<N>(); } VP_ENTRY vp_main_split_##N() { t_split<N>(); }
 LENS(TOK_E)
 
